@@ -3,7 +3,7 @@ from ..engine import rule
 from ..db import (walk, peel, peel_casts, render, callee, path_ends, short_path, is_call, call_args, lit_int,
                   diverges, exit_kind, path_conditions, atoms, AnchorMissing, local_name, find_by_id)
 from ..guards import guarded_exits, eval3, bound_cmp_evaluator, mentions, is_call_to, cmp_atom, holds
-from ..origins import origins, derived_fns, unwrap_try, index as oindex, pat_bindings
+from ..origins import origins, derived_fns, unwrap_try, index as oindex, pat_bindings, owners
 from ..uses import consumer, is_result_ty
 from .. import cg
 
@@ -84,10 +84,12 @@ def no_panic(db, ctx):
                     continue
                 what = mac
             allowed = None
+            own = f
             for (suffix, w), reason in ALLOW.items():
-                if f.short().endswith(suffix) and w == what:
-                    allowed = reason
-            ctx.ob("%s|%s" % (f.short(), what), allowed is not None,
+                for o in owners(db, f):
+                    if o.short().endswith(suffix) and w == what and allowed is None:
+                        allowed, own = reason, o
+            ctx.ob("%s|%s" % (own.short(), what), allowed is not None,
                    "%s: %s at %s, reachable via %s%s" % (f.short(), what, s["sp"], " → ".join(g.path(entries, k) or []),
                                                        (" — allowed: " + allowed) if allowed else " — NOT allowed: a panic on compiler input"),
                    fn=f, site=s["sp"])
@@ -111,15 +113,31 @@ def resolved_first(db, ctx):
     ctx.ob("compile|first-call", ok, "DictBuilder::compile: first workspace call is %s (must be check_if_resolved, consumed by `?`); "
                                      "call order: %s" % (first, order[:6]), fn=comp)
     chk = db.one("check_if_resolved", "DictBuilder")
-    good = False
-    for ifn, cond, pol, ek, ps in guarded_exits(chk.hir):
-        at = atoms(cond, pol)
-        has_needs = any(mentions(a, is_call_to("needs_split_resolution")) and p for a, p in at)
-        has_res = any(peel(a).get("k") == "Field" and peel(a).get("name") == "resolved" and not p for a, p in at)
-        if has_needs and has_res and ek in ("err", "ret"):
-            good = True
+    # truth table of the outcome over (inline splits exist, resolved): Err exactly for (true, false)
+    from ..flow import outcomes
+
+    def classify(e):
+        if e.get("k") == "Call" and path_ends(e.get("callee"), ("Result::Ok", "Ok")):
+            return "ok"
+        if e.get("k") == "Call" and path_ends(e.get("callee"), ("Result::Err", "Err")):
+            return "err"
+        if is_call(e) and path_ends(callee(e) or "", ("DicCompilationCtx::err",)):
+            return "err"
+        return "unknown:" + render(e)[:40]
+    table = {}
+    for needs in (True, False):
+        for res in (True, False):
+            def ev(atom, needs=needs, res=res):
+                a = peel(atom)
+                if mentions(a, is_call_to("needs_split_resolution")) and a.get("k") in ("MethodCall", "Call", "Path"):
+                    return needs
+                if a.get("k") == "Field" and a.get("name") == "resolved":
+                    return res
+                return None
+            table[(needs, res)] = sorted(outcomes(chk.hir, ev, classify))
+    good = table[(True, False)] == ["err"] and all(v == ["ok"] for k_, v in table.items() if k_ != (True, False))
     ctx.ob("check_if_resolved|guard", good,
-           "check_if_resolved returns an error when needs_split_resolution() && !self.resolved: %s" % good, fn=chk)
+           "check_if_resolved returns an error exactly when needs_split_resolution() && !self.resolved: %s; outcome by (needs, resolved): %s" % (good, table), fn=chk)
     from ..origins import field_writes
     k, _ = db.adt("dic::build::DictBuilder")
     writers = [(f, v) for f, kind, v, n in field_writes(db, k, "resolved")]
@@ -300,23 +318,22 @@ def validate(db, ctx):
                   if any(a.endswith("word_id::WordId") or a.endswith("lexicon::SplitUnit") for a in fl.get("adts", []))]
     for fld in ref_fields:
         ok = False
-        for n, ps in walk(f.hir):
-            if is_call(n) and path_ends(callee(n), "validate_wid"):
-                if mentions(n, lambda y: y.get("k") == "Field" and y.get("name") == fld):
-                    ok = True
-                for p in ps:
-                    if p.get("k") == "Match" and p.get("src") == "ForLoopDesugar" and mentions(
-                            p["scrut"], lambda y: y.get("k") == "Field" and y.get("name") == fld):
+        for g in [f] + [h for _, _, h in db.private_helpers(f)]:
+            for n, ps in walk(g.hir):
+                if is_call(n) and path_ends(callee(n), "validate_wid") and call_args(n):
+                    if any(o[0] == "field" and o[1].endswith("RawLexiconEntry") and o[2] == fld for o in origins(db, g, call_args(n)[0], depth=2)):
                         ok = True
         ctx.ob("validate_entries|validate_wid(%s)" % fld, ok,
                "word-reference field RawLexiconEntry.%s is passed (directly or element-wise) to validate_wid: %s" % (fld, ok), fn=f)
     ctx.floor(6)
     vw = db.one("validate_wid", "LexiconReader")
     found = None
-    isb = lambda x: local_name(x) == "max" or (isinstance(x, dict) and x.get("k") == "Path" and x.get("name") == "max")
+    isw = lambda x: mentions(x, is_call_to("WordId::word"))
+    # the bound is the local that selects between the two dictionary sizes (whatever it is called): a local that is not the word part
+    isb = lambda x: isinstance(x, dict) and x.get("k") == "Path" and x.get("res") == "local" and not isw(x)
     for ifn, cond, pol, ek, ps in guarded_exits(vw.hir):
-        if mentions(cond, is_call_to("WordId::word")):
-            vals = [eval3(cond, bound_cmp_evaluator(isb, p)) for p in (-1, 0, 1)]
+        if isw(cond):
+            vals = [eval3(cond, bound_cmp_evaluator(isb, p, isw)) for p in (-1, 0, 1)]
             vals = [bool(v is not None and v == pol) for v in vals]
             found = (cond, vals, ek)
     ctx.ob("validate_wid|word<max", found is not None and found[1] == [False, True, True],
